@@ -24,7 +24,7 @@ ASSUMPTIONS = [
     "secrecy is decided functionally (stored bytes equal the reference ciphertext; no secret needle occurs); cryptographic strength of zero-IV CBC is out of scope",
     "encrypted components are compared on the declared length only (stored/returned blob may be zero-padded)",
 ]
-REQUIRED_CLASSES = ["len%16!=0", "trailing00>=1", "all-zero", "framing=bec2", "framing=bf3", "via=set_config", "cipher=unregistered", "cipher=raising", "trailing00>=16", "has-needles", "retry-after-failure", "pre-existing-plain-config", "flag-without-enc-tag", "content>4KiB"]
+REQUIRED_CLASSES = ["len%16!=0", "trailing00>=1", "all-zero", "framing=bec2", "framing=bf3", "via=set_config", "cipher=unregistered", "cipher=raising", "trailing00>=16", "has-needles", "retry-after-failure", "pre-existing-plain-config", "flag-without-enc-tag", "content>4KiB", "readfail=ValueError", "readfail=short-key"]
 
 ENC_DESC = [(0xC3, b"\x03"), (0xC2, b"\x02"), (0xC1, b"\x03"), (0xC5, b"\x01")]
 # "marked for session-key encryption" is the component's flag; the ENC tag normally accompanies it, but the object model does not tie them:
@@ -275,6 +275,68 @@ def check_cipher_failure(case, rec):
         raise Violation("cipher raised but write_file returned normally")
 
 
+def check_read_failure(case, rec):
+    """(d', read side) the cipher fails while a file is being READ: the k-th decrypt call raises (ValueError / RuntimeError), or the reader is
+    given a session key of the wrong size with MAC checking off.  Reading must then fail - it must never return the component with something
+    else than the original content (e.g. the ciphertext) as if it were valid."""
+    rec.cls("readfail=" + case["how"])
+    rec.nt()
+    key = case["key"]
+    f, comp = _build(case)
+    content = bytes(case["content"])
+    declared = case.get("actual_len") or len(content)
+    s = io.StringIO()
+    f.write_file(s, key)
+    text = s.getvalue()
+    base = sut.bec2format.AES128
+    calls = [0]
+    exc = {"ValueError": ValueError, "RuntimeError": RuntimeError}.get(case["how"])
+    try:
+        if exc is not None:
+            fail_at = case["fail_at"]
+
+            class Failing(base):
+                def encrypt(self, data):
+                    return ossl.cbc_encrypt(self._key, ossl.zeropad(data), self._iv or bytes(16))
+
+                def decrypt(self, data):
+                    calls[0] += 1
+                    if calls[0] > fail_at:
+                        raise exc("injected cipher failure")
+                    return ossl.cbc_decrypt(self._key, data, self._iv or bytes(16))
+
+                def mac(self, data):
+                    return ossl.cbc_encrypt(self._key, ossl.zeropad(data), self._iv or bytes(16))[-16:]
+
+            sut.bec2format.register_AES128(Failing)
+            try:
+                g = sut.Bf3File.read_file(io.StringIO(text), session_key=key, check_cmac=case["check_cmac"])
+            except Exception:
+                return
+        else:
+            try:
+                g = sut.Bf3File.read_file(io.StringIO(text), session_key=key[: case["keylen"]], check_cmac=False)
+            except Exception:
+                return
+    finally:
+        sut.registry_restore()
+    if exc is not None and calls[0] <= case["fail_at"]:
+        rec.cls("readfail.not-reached")
+    idx = next(i for i, c in enumerate(f.components) if c is comp)
+    got = g.components[idx]
+    if bytes(got.blob[:declared]) != content[:declared] or not got.encrypt_by_session_key:
+        raise Violation("reading while the cipher fails (%s) returned normally with encrypted component %d = %s.. (encrypt flag %r); the original content starts %s.." % (
+            case["how"] + (" at decrypt call %d" % (case["fail_at"] + 1) if exc is not None else " key of %d bytes, MAC check off" % case["keylen"]),
+            idx, bytes(got.blob[:16]).hex(), got.encrypt_by_session_key, content[:16].hex()))
+
+
+def strat_read_failure(tier):
+    return st.fixed_dictionaries(dict(via=st.just("direct"), content=S.payload(120), pos=st.integers(0, 2), actual_len=st.none(),
+                                      how=st.sampled_from(["ValueError", "RuntimeError", "short-key"]), fail_at=st.integers(0, 3), keylen=st.sampled_from([0, 1, 10, 15]),
+                                      check_cmac=st.booleans(), key=S.session_key(allow_default=False), framing=st.just("bf3"), blocks=st.just([]),
+                                      plain=st.lists(S.plain_component(60), max_size=2), comments=st.just([])))
+
+
 def _case_common(tier):
     return dict(
         key=S.session_key(allow_default=False),
@@ -350,4 +412,5 @@ def parts(tier):
         Part("large", check=check_large, enum=enum_large, quick=(8, 0), thorough=(12, 0)),
         Part("generated", check=check, strategy=strat, quick=(16, 250), thorough=(16, 1500)),
         Part("cipher_failure", check=check_cipher_failure, strategy=strat_fail, quick=(16, 100), thorough=(16, 600)),
+        Part("read_failure", check=check_read_failure, strategy=strat_read_failure, quick=(8, 60), thorough=(16, 400)),
     ]
